@@ -38,6 +38,9 @@ type TypeSpec struct {
 	// Struct-backed types only: the ID field is promoted from an embedded
 	// struct (struct{ Base; ... }, Base struct{ ID string `...` }).
 	EmbedID bool
+	// Struct-backed types only: the ID field has a defined string type
+	// (type Key string) instead of string.
+	NamedID bool
 }
 
 // SchemaSpec is a generated schema together with its description.
@@ -103,6 +106,10 @@ func (ts TypeSpec) String() string {
 		impl = "struct"
 		if ts.EmbedID {
 			impl = "struct,embedded-id"
+		}
+
+		if ts.NamedID {
+			impl += ",named-id"
 		}
 	} else if ts.Derived {
 		impl = "soft,derived"
@@ -230,6 +237,10 @@ func StructTypeOf(ts *TypeSpec) reflect.Type {
 	pos := 0
 	if ts.IDPos > 0 {
 		pos = ts.IDPos % (len(fields) + 1)
+	}
+
+	if ts.NamedID {
+		idField.Type = reflect.TypeOf(NamedString(""))
 	}
 
 	if ts.EmbedID {
@@ -535,6 +546,7 @@ func CoherentSchema(t *rapid.T, o SchemaOpts) *SchemaSpec {
 		}
 
 		specs[i].EmbedID = rapid.IntRange(0, 5).Draw(t, "embedid") == 0
+		specs[i].NamedID = rapid.IntRange(0, 7).Draw(t, "namedid") == 0
 
 		if o.AllKindsChance > 0 && rapid.IntRange(1, o.AllKindsChance).Draw(t, "allkinds") == 1 {
 			specs[i].Attrs = AllKindAttrs()
